@@ -271,7 +271,7 @@ func (w *e1World) step(c *sim.Ctx, prop string, i int, o fsx.Op, env *fsx.Env, u
 
 		out.classes = []string{hc}
 
-		if o.K == "FChdir" && hc == "hdir" {
+		if (o.K == "FChdir" || o.K == "FReadDir" || o.K == "FReaddirnames") && hc == "hdir" {
 			// has the directory been renamed or removed since the handle was opened?
 			if rs, err := w.k.call(kReq{Cmd: "hclass", Op: o}); err == nil && len(rs.Classes) == 1 {
 				out.classes = rs.Classes
